@@ -161,7 +161,8 @@ def _mk_init_body( self_name, name, type_ ):
     return f"_type_{name}({v})"
 
   if isinstance( type_, list ) or is_bitstruct_class( type_ ):
-    return f'{self_name}.{name} = {_recursive_generate_copy(type_, name)} if {name} else {_recursive_generate_init(type_)}'
+    # ( a struct class may define __bool__ / __len__: only None asks for the default )
+    return f'{self_name}.{name} = {_recursive_generate_copy(type_, name)} if {name} is not None else {_recursive_generate_init(type_)}'
 
   assert issubclass( type_, Bits )
   return f'{self_name}.{name} = _type_{name}({name})'
